@@ -91,7 +91,7 @@ func Canonicalize(data lokiapi.QueryResponseData) *Canon {
 			cs := CSeries{Labels: cloneLabels(s.Metric.Value)}
 			cs.Key = RenderLabels(cs.Labels)
 			for _, p := range s.Values {
-				cs.Points = append(cs.Points, CPoint{T: p.T, V: p.V})
+				cs.Points = append(cs.Points, CPoint{T: p.T, V: canonValue(p.V)})
 			}
 			c.Series = append(c.Series, cs)
 		}
@@ -100,7 +100,7 @@ func Canonicalize(data lokiapi.QueryResponseData) *Canon {
 		for _, s := range data.VectorResult.Result {
 			cs := CSeries{Labels: cloneLabels(s.Metric.Value)}
 			cs.Key = RenderLabels(cs.Labels)
-			cs.Points = []CPoint{{T: s.Value.T, V: s.Value.V}}
+			cs.Points = []CPoint{{T: s.Value.T, V: canonValue(s.Value.V)}}
 			c.Series = append(c.Series, cs)
 		}
 		sortSeries(c.Series)
@@ -109,6 +109,16 @@ func Canonicalize(data lokiapi.QueryResponseData) *Canon {
 		c.Series = []CSeries{{Labels: map[string]string{}, Key: "{}", Points: []CPoint{{T: p.T, V: p.V}}}}
 	}
 	return c
+}
+
+// canonValue normalises the one value that has two spellings: negative zero
+// equals zero (which of the two a min/max over mixed zeros yields is an accident
+// of evaluation order that no property speaks about).
+func canonValue(v string) string {
+	if v == "-0" {
+		return "0"
+	}
+	return v
 }
 
 func renderEntries(es []CEntry) string {
